@@ -269,4 +269,52 @@ func wsRealPeer(c *core.Ctx, sig string) {
 			fail(fmt.Sprintf("overlap: %d goroutines inside WriteMessage / %d inside ReadMessage at the same time", spy.maxW, spy.maxR), nil)
 		}
 	}
+	// (4) the socket is torn down while a close is pending (close frame sent, the peer silent, the close deadline not
+	//     yet over): a transport failure -- Listen returns an error, the close call returns within its deadline
+	{
+		sawClose := make(chan struct{})
+		var once sync.Once
+		conn, spy, stop, err := realPair(func(sc *websocket.Conn) {
+			sc.SetCloseHandler(func(int, string) error { once.Do(func() { close(sawClose) }); return nil }) // no echo
+			for {
+				if _, _, err := sc.ReadMessage(); err != nil {
+					return
+				}
+			}
+		}, ws.ConnectionOptions{CloseDeadline: 2 * time.Second}, false)
+		if err != nil {
+			return
+		}
+		lres := make(chan error, 1)
+		go func() { lres <- conn.Listen() }()
+		time.Sleep(20 * time.Millisecond)
+		cres := make(chan error, 1)
+		t0 := time.Now()
+		go func() { cres <- conn.Close() }()
+		select {
+		case <-sawClose:
+		case <-time.After(time.Second):
+		}
+		_ = spy.Conn.UnderlyingConn().Close()
+		var lerr error
+		gotL := false
+		select {
+		case lerr = <-lres:
+			gotL = true
+		case <-time.After(3 * time.Second):
+			fail("listen: Listen did not return within 3 s after the socket was torn down during a pending close", nil)
+		}
+		select {
+		case <-cres:
+		case <-time.After(3 * time.Second):
+			fail("hang: Close did not return within its 2 s deadline plus slack after the socket was torn down", nil)
+		}
+		dur := time.Since(t0)
+		stop()
+		c.Eval()
+		c.Hist("real peer: socket torn down while a close is pending")
+		if gotL && lerr == nil {
+			fail("transport: Listen returned nil although the socket was torn down while the close was pending (no closing handshake took place)", map[string]interface{}{"close_took_ms": dur.Milliseconds()})
+		}
+	}
 }
